@@ -1171,6 +1171,7 @@ impl<T, L: Clone + Layout> TensorBase<Vec<T>, L> {
     {
         let (start, end) = (range.start, range.end);
 
+        assert!(dim < self.ndim(), "dim must be < ndim");
         assert!(start <= end, "start must be <= end");
         assert!(end <= self.size(dim), "end must be <= dim size");
 
